@@ -248,7 +248,7 @@ Definition corr_ok (c : c33case) : bool :=
   | CPStress wc ws rs => stress_corr wc ws rs
   | CLn ops dials => ln_corr linit (acc_started ops) (started ops) ops dials
   | CLnStress d a p => lstress_corr d a p
-  | CCaps pc lc => (pc =? chan_cap) && (lc =? conns_cap)
+  | CCaps pc lc => (pc =? chan_cap) && (lc =? conns_cap) && forallb (fun z => Z.to_N z =? pc) npc_ints
   end.
 
 Definition prop_ok (c : c33case) : bool :=
